@@ -67,7 +67,7 @@ m = {
  'engines': [{'name': 'pbt', 'path': 'pbt/', 'serves_properties': sorted(T),
               'kind_free_text': 'Hypothesis strategies + exhaustive small-scope enumeration, sharded over 16 processes; independent DBML writer, content extractor, SQL DDL reader and reference models; root-cause bucketing, replay files, known-findings registry'}],
  'checks': checks,
- 'notes': 'python -m pbt.run <Cxx> --tier quick|thorough [--replay path]; env VERIF_SEED (default 1), VERIF_REPO (default /repo). Exit 0 held / 1 VIOLATION / 2 harness error. Known findings: known_findings.json (regenerated by tools/mkfindings.py at development time only). Sensitivity: mutants/<Cxx>/*.patch (python -m pbt.mutation_run), mutants/grammar (python -m pbt.grammar_mutants), independently seeded changes seeded/<id>/ (python -m pbt.seeded_run).',
+ 'notes': 'python -m pbt.run <Cxx> --tier quick|thorough [--replay path]; env VERIF_SEED (default 1), VERIF_REPO (default /repo). Exit 0 held / 1 VIOLATION / 2 harness error. Known findings: known_findings.json (regenerated by tools/mkfindings.py at development time only). Sensitivity: mutants/<Cxx>/*.patch (python -m pbt.mutation_run), mutants/grammar (python -m pbt.grammar_mutants), mutants/code (python -m pbt.code_mutants), independently seeded changes seeded/<id>/ (python -m pbt.seeded_run).',
  'not_applicable': [],
 }
 json.dump(m, open(os.path.join(ROOT, 'MANIFEST.json'), 'w'), indent=1)
